@@ -291,7 +291,8 @@ ThreadPool::Snapshot ThreadPool::snapshot() const
 
 void ThreadPool::threadProc(ThreadToken thread_token)
 {
-    bool let_main_loop_join_me = false;
+    std::thread *retired_thread = nullptr;  //!< 非空表示本线程已决定退出，需交由main_loop去join()
+    event::Loop *wp_loop = nullptr;
 
     LogDbg("thread %u start", thread_token.id());
 
@@ -305,7 +306,13 @@ void ThreadPool::threadProc(ThreadToken thread_token)
              */
             if ((d_->idle_thread_num >= d_->undo_tasks_cabinet.size()) && (d_->threads_cabinet.size() > d_->min_thread_num)) {
                 LogDbg("thread %u will exit, no more work.", thread_token.id());
-                let_main_loop_join_me = true;
+                /**
+                 * 决定退出与从 threads_cabinet 中移除自己必须在同一临界区内完成。
+                 * 否则 execute() 在此期间仍将本线程计入线程数，从而不再创建新线程，
+                 * 导致新提交的任务无线程可执行
+                 */
+                retired_thread = d_->threads_cabinet.free(thread_token);
+                wp_loop = d_->wp_loop;
                 break;
             }
 
@@ -370,13 +377,10 @@ void ThreadPool::threadProc(ThreadToken thread_token)
 
     LogDbg("thread %u exit", thread_token.id());
 
-    if (let_main_loop_join_me) {
-        //! 则将线程取出来，交给main_loop去join()，然后delete
-        std::unique_lock<std::mutex> lk(d_->lock);
-
-        auto t = d_->threads_cabinet.free(thread_token);
-        TBOX_ASSERT(t != nullptr);
-        d_->wp_loop->runInLoop(
+    if (retired_thread != nullptr) {
+        //! 将线程对象交给main_loop去join()，然后delete
+        auto t = retired_thread;
+        wp_loop->runInLoop(
             [t]{ t->join(); delete t; },
             "ThreadPool::threadProc, join and delete it"
         );
